@@ -262,11 +262,16 @@ Section Model.
           | inr _ => Ok (s_crystal s, PolOn (n0 o) Pos a, [NFPeriodInfinite])
           end)
     end.
+  (* The two quirks are READ OFF THE SOURCE by the generator (Gen/ConfigSites.v): [old_poling]: the optimum idler is computed
+     with self.pp; [old_idler]: the idler waist position is computed from self.idler.  Both true on the tree this was written
+     against. *)
+  Variable old_poling : bool.
+  Variable old_idler : bool.
   Definition finish_optimum (s : spdc num) (signal : beam num) (cs : crystal_setup num) (pp : poling num)
       (nf_pp : list nonfinite) (idler0 : beam num) (nf_i : list nonfinite) : spdc num * list nonfinite :=
     let idler := set_waist idler0 (b_waist (s_idler s)) in       (* "keep the same idler waist size" *)
     let zs := waist_position cs signal NFWaistSignal in
-    let zi := waist_position cs (s_idler s) NFWaistIdler in      (* self.idler: the OLD idler *)
+    let zi := waist_position cs (if old_idler then s_idler s else idler) NFWaistIdler in
     ({| s_crystal := cs; s_signal := signal; s_idler := idler; s_pump := s_pump s; s_bandwidth := s_bandwidth s;
         s_power := s_power s; s_threshold := s_threshold s; s_pp := pp; s_zs := fst zs; s_zi := fst zi;
         s_deff := s_deff s |},
@@ -274,7 +279,7 @@ Section Model.
   Definition try_as_optimum (s : spdc num) : outcome (spdc num * list nonfinite) :=
     let signal := opt_signal s in
     bind (opt_crystal_poling s signal) (fun r =>
-    bind (idler_optimum signal (s_pump s) (fst (fst r)) (s_pp s)) (fun idn =>      (* self.pp: the OLD poling *)
+    bind (idler_optimum signal (s_pump s) (fst (fst r)) (if old_poling then s_pp s else snd (fst r))) (fun idn =>
     Ok (finish_optimum s signal (fst (fst r)) (snd (fst r)) (snd r) (fst idn) (snd idn)))).
 
   (* ---- level-2 trace of try_as_spdc (used by the correspondence check): which fallible helper was called, in
